@@ -275,6 +275,28 @@ func chunkPlan(tp *sim.Tape, n, max int) []int {
 	return out
 }
 
+// scaleChunks multiplies a chunk plan so that reading total bytes takes at most about maxReads calls:
+// every Read is a schedule point, and a run that exhausts the step budget decides nothing.
+func scaleChunks(plan []int, total, maxReads int) []int {
+	sum := 0
+	for _, c := range plan {
+		sum += c
+	}
+	if len(plan) == 0 || sum == 0 {
+		return plan
+	}
+	reads := total * len(plan) / sum
+	if reads <= maxReads {
+		return plan
+	}
+	f := reads/maxReads + 1
+	out := make([]int, len(plan))
+	for i, c := range plan {
+		out[i] = c * f
+	}
+	return out
+}
+
 func maxInt(a, b int) int {
 	if a > b {
 		return a
